@@ -12,7 +12,9 @@ TNext ==
        \/ e.k = "reset" /\ ResetTo(e.prog, e.p.mk \in {2, 3})
        \/ (e.k \in Skip \/ (e.k # "reset" /\ (Private(e) \/ e.t = 0))) /\ UNCHANGED vars
        \/ e.k \in EndKinds /\ UNCHANGED vars
-       \/ e.k \notin (Skip \cup EndKinds \cup {"reset"}) /\ ~Private(e) /\ e.t # 0 /\ Next /\ Matches(ev', e)
+       \* the user's functor is copied / moved (user code): only before the try-lock and before the task is queued
+       \/ e.k = "fcopy" /\ e.t # 0 /\ th[e.t].pc \in {"s1", "q1"} /\ UNCHANGED vars
+       \/ e.k \notin (Skip \cup EndKinds \cup {"reset", "fcopy"}) /\ ~Private(e) /\ e.t # 0 /\ Next /\ Matches(ev', e)
     /\ Mark(l)
 TSpec == TInit /\ [][TNext]_<<vars, l>>
 Accepted == IF TLCGet(1) = Len(Tr) THEN TRUE ELSE Rejected(TLCGet(1) + 1)
